@@ -40,6 +40,12 @@ LEAVES = [
      [P("record.type", "rtype"), P("record.is_expired(now)", "expired", "bool"), P("cast(DNSPointer, record).alias == alias", "alias_eq", "bool")],
      "bool", {}),
     # ---- registry.py
+    # the registry is keyed by name: removal is by key, never by object identity (an equal-but-distinct ServiceInfo, or the
+    # handle from before update_service, withdraws the service)
+    ("Register", "registry_remove_by_identity", "_services/registry.py", "ServiceRegistry.async_remove", ("has_identity_test",),
+     [], "bool", {}),
+    ("Register", "registry_remove_inner_by_identity", "_services/registry.py", "ServiceRegistry._remove", ("has_identity_test",),
+     [], "bool", {}),
     ("Register", "registry_has_entries", "_services/registry.py", "ServiceRegistry._remove", ("assign", "self.has_entries", 0),
      [P("self._services", "n_services")], "bool", {"nat": True}),
 ]
